@@ -327,6 +327,9 @@ func gqid(buf []byte, qid *Qid) []byte {
 
 func gstat(buf []byte, d *Dir, dotu bool) ([]byte, error) {
 	sz := len(buf)
+	if sz < 2+2+4+13+4+4+4+8+2 {
+		return nil, &Error{"buffer too short for stat", EINVAL}
+	}
 	d.Size, buf = gint16(buf)
 	d.Type, buf = gint16(buf)
 	d.Dev, buf = gint32(buf)
@@ -360,6 +363,9 @@ func gstat(buf []byte, d *Dir, dotu bool) ([]byte, error) {
 		d.Ext, buf = gstr(buf)
 		if buf == nil {
 			return nil, &Error{"d.Ext failed", EINVAL}
+		}
+		if len(buf) < 4+4+4 {
+			return nil, &Error{"d.Uidnum failed", EINVAL}
 		}
 
 		d.Uidnum, buf = gint32(buf)
